@@ -257,10 +257,11 @@ _UNPREDICTED_HANGS = [0]    # per process: after a few hangs the model did not p
 
 
 def _mb():
+    """one model process per OS process (a forked worker must not share its parent's pipe)"""
     global _MB
-    if _MB is None:
-        _MB = core.ModelBin()
-    return _MB
+    if _MB is None or _MB[0] != os.getpid():
+        _MB = (os.getpid(), core.ModelBin())
+    return _MB[1]
 
 
 def _rdflib_can(c):
@@ -418,14 +419,39 @@ class Batch(object):
         self.hashes |= o.hashes
 
 
-RC_IDS = ["C06-F1", "C06-F2", "C06-F3", "C06-F4", "C06-F5", "C06-F6", "C06-F7", "C06-F8"]
+RC_IDS_UNREPAIRED = ["C06-F1", "C06-F2", "C06-F3", "C06-F4", "C06-F5", "C06-F6", "C06-F7", "C06-F8"]
+# after the tokeniser repairs (Gen.Consts.nt_fixed_tok) what is left of F7 has its own id
+RC_IDS_REPAIRED = ["C06-F1", "C06-F2", "C06-F3", "C06-F4", "C06-F5", "C06-F6", "C06-F7r", "C06-F8"]
+RC_IDS = list(RC_IDS_UNREPAIRED)
+
+
+def set_shape():
+    """ask the model which text of the tokeniser Consts.v was generated from"""
+    fixed = _mb().call("c06_info", [["x"]])[0][0] == "1"
+    RC_IDS[:] = RC_IDS_REPAIRED if fixed else RC_IDS_UNREPAIRED
+    return fixed
+
+
+def load_corpus():
+    """regression cases of repaired findings: {finding, line, expected_kinded}"""
+    d = os.path.join(core.VERIF, "corpus", "C06")
+    out = []
+    if os.path.isdir(d):
+        for fn in sorted(os.listdir(d)):
+            if fn.endswith(".json"):
+                with open(os.path.join(d, fn), encoding="utf-8") as f:
+                    c = json.load(f)
+                c["file"] = "corpus/C06/" + fn
+                out.append(c)
+    return out
 
 
 def eval_cases(cases, rdflib_every=0, vm_every=0, known=None, by_hash=False):
     """model + implementation + oracle on a list of cases"""
     b = Batch()
-    known = set(RC_IDS) if known is None else known
     mb = _mb()
+    set_shape()
+    known = set(RC_IDS) if known is None else known
     t0 = time.time()
     lines = [render_line(c) for c in cases]
     srows = [spec_row(c) for c in cases]
@@ -603,6 +629,17 @@ def run(tier, seed, replay=None):
         else:
             run.notes.append("finding %s no longer reproduces on its pinned line" % fid)
 
+    # regression corpus: pinned lines of repaired findings must be read right
+    corpus = load_corpus()
+    corpus_fail = []
+    for c in corpus:
+        got = impl_doc(c["line"])
+        ok = got[0] == "D" and got[1] == 0 and [kinded_of_obs(t) for t in got[2]] == [c["expected_kinded"]]
+        if not ok:
+            corpus_fail.append(c)
+            run.violation("regression case of repaired finding %s is not read right" % c.get("finding"),
+                          {"line": c["line"], "impl": got, "expected_kinded": c["expected_kinded"], "corpus": c["file"]})
+
     if not bs.model_ok:
         run.notes.append("model binary unavailable: " + bs.model_log[-800:])
         run.violation("model no longer builds", {"broken": "Model/Entry extraction", "log": bs.model_log[-1500:]},
@@ -610,6 +647,8 @@ def run(tier, seed, replay=None):
         return run.finish(bs)
 
     total = Batch()
+    repaired = set_shape()
+    run.notes.append("tokeniser of VERIF_REPO: %s (Gen.Consts.nt_fixed_tok)" % ("repaired" if repaired else "as it was"))
     t_start = time.time()
     docs = None
     if replay:
@@ -685,7 +724,9 @@ def run(tier, seed, replay=None):
                           failing_input=False)
 
     run.coverage.update({
-        "evaluations": total.n + (docs["docs"] if docs else 0),
+        "evaluations": total.n + (docs["docs"] if docs else 0) + len(corpus),
+        "regression_corpus": {"cases": len(corpus), "failing": [c["file"] for c in corpus_fail]},
+        "tokeniser_repaired": repaired,
         "distinct_nontrivial": total.nontrivial + len(total.hashes),
         "rule": "non-trivial = literal object with a non-empty lexical form.  Main product: distinct by construction "
                 "(no symbol of the alphabet is a concatenation of others, every other factor changes the line), "
